@@ -59,7 +59,9 @@ import (
 	"testing"
 	"time"
 
+	"go.minekube.com/common/minecraft/component"
 	"go.minekube.com/gate/pkg/edition/java/proto/packet"
+	"go.minekube.com/gate/pkg/edition/java/proto/packet/chat"
 	"go.minekube.com/gate/pkg/edition/java/proto/state"
 	"go.minekube.com/gate/pkg/edition/java/proto/version"
 	"go.minekube.com/gate/pkg/gate/proto"
@@ -1050,6 +1052,20 @@ func c44Judge(e *c44Env) *verifkit.Violation {
 	}
 	if err := e.conn.WritePacket(&packet.KeepAlive{RandomID: 1}); !errors.Is(err, ErrClosedConn) {
 		return verifkit.Violationf("write-after-close:write", "WritePacket after the final Close returned %v (rep %d)", err, e.rep)
+	}
+	// The same holds for a connection that is (or gets) in the configuration phase,
+	// where an open 1.20.2+ connection holds play-only packets back in a queue: a
+	// closed one must refuse them like every other write, not queue them forever.
+	e.conn.SetState(state.Config)
+	playOnly := &chat.SystemChat{Component: chat.FromComponent(&component.Text{Content: "after close"}), Type: chat.SystemMessageType}
+	if err := e.conn.BufferPacket(playOnly); !errors.Is(err, ErrClosedConn) {
+		return verifkit.Violationf("write-after-close:buffer-play-packet-in-config", "BufferPacket of a play-only packet on a closed connection in the config state returned %v, want ErrClosedConn (rep %d)", err, e.rep)
+	}
+	if err := e.conn.WritePacket(playOnly); !errors.Is(err, ErrClosedConn) {
+		return verifkit.Violationf("write-after-close:write-play-packet-in-config", "WritePacket of a play-only packet on a closed connection in the config state returned %v, want ErrClosedConn (rep %d)", err, e.rep)
+	}
+	if err := e.conn.BufferPacket(&packet.KeepAlive{RandomID: 2}); !errors.Is(err, ErrClosedConn) {
+		return verifkit.Violationf("write-after-close:buffer", "BufferPacket after the final Close (config state) returned %v (rep %d)", err, e.rep)
 	}
 	e.hmu.Lock()
 	handled := append([]int(nil), e.handled...)
